@@ -248,6 +248,7 @@ func C05(rep *ev.Reporter, tier string) {
 		}
 		for _, e := range []string{"F.Arr.Len()", "F.SArr.Len()", "F.M.Len()", `StringContains(F.S, "x")`, `StringContains("abc", F.S)`, `StringContains(F.S + "z", "yz")`,
 			"IsZero(F.I)", "IsZero(0)", "IsZero(0.0)", `IsZero("")`, "IsZero(F.S)", "IsZero(F.I - 5)", "IsNil(F.P)", "IsNil(F.PI)",
+			"Max()", "Min()", "Max() + 1.5", "F.Cat()", `F.Cat() + "z"`, "F.Pick(0)", "F.Pick(1)", "F.Pick(0) + 2", `F.Cat("only")`,
 			"Max(1.5)", "Max(1.5, 2.5)", "Max(2.5, 1.5, F.F)", "Min(1.5, F.F, 0.5)", "Max(F.F, F.F * 3.0)", "Min(-0.0, 0.0)", "Abs(-1.5)", "Abs(F.F - 2.0)",
 			`ContainsStr(F.SArr, "q")`, `ContainsStr(F.SArr, "z")`, `ContainsStr(F.S.Split("y"), "x")`,
 			"Pow10(2)", "Pow10(F.I2)", "Ldexp(0.5, 3)", "Jn(1, 2.5)", "Ilogb(8.5)", "IsNaN(F.F)", "IsInf(F.F, 1)", "Signbit(-2.5)", "Signbit(F.F)"} {
